@@ -1,30 +1,34 @@
 From Coq Require Import List NArith Bool.
 From V.C11 Require Import Model Proofs.
+From V.C11 Require HSModel HSProofs.
 Import ListNotations.
 Open Scope N_scope.
 From V.C11 Require Import Properties.
 Check (C11_alternation :
   forall (c : cfg) (ops : list op),
-    forallb prompt_op ops = true ->
     exists h, grammar (fun _ => false) (events (fst (run c init ops))) = Some h).
-Check (C11_alternation_refuted :
-  exists (c : cfg) (ops : list op),
-    grammar (fun _ => false) (events (fst (run c init ops))) = None).
+Check (C11_alternation_before_fix_refuted :
+  Before.events (fst (Before.run cfg_w_before Before.init w_slow_close_before)) =
+    [Before.UOpened 0 Before.DOut; Before.UValidate 0; Before.UOpened 0 Before.DIn; Before.UClosed 0; Before.UClosed 0] /\
+  Before.grammar (fun _ => false) (Before.events (fst (Before.run cfg_w_before Before.init w_slow_close_before))) = None /\
+  events (fst (run cfg_w init w_slow_close)) = [UOpened 0 DOut; UClosed 0; UValidate 0; UOpened 0 DIn]).
+Check (C11_user_view_is_protocol_view :
+  forall (c : cfg) (s : st), reachable c s ->
+    (forall p, hopen s p = is_open (ps s p)) /\ (forall p k, ps s p = Some (Open k) -> hsink s p = Some k)).
 Check (C11_opened_needs_accepted_inbound :
   forall (c : cfg) (s : st) (o : op) (s' : st) (ev : list uev) (calls : list call) (p : peer) (d : dir),
     step c s o = Some (s', ev, calls) -> In (UOpened p d) ev -> accepted_in (ps s p) d).
 Check (C11_closed_on_disconnect :
-  forall (c : cfg) (ops : list op) (x : st * list uev * list call) (p : peer) (k : N)
-         (s' : st) (ev : list uev) (calls : list call),
-    forallb prompt_op ops = true -> In x (fst (run c init ops)) ->
-    conn (fst (fst x)) p = true -> ps (fst (fst x)) p = Some (Open k) ->
-    step c (fst (fst x)) (ConnClosed p) = Some (s', ev, calls) -> In (UClosed p) ev).
+  forall (c : cfg) (s : st) (p : peer) (k : N) (s' : st) (ev : list uev) (calls : list call),
+    reachable c s -> conn s p = true -> ps s p = Some (Open k) ->
+    step c s (ConnClosed p) = Some (s', ev, calls) -> In (UClosed p) ev).
 Check (C11_closed_on_user_close :
-  forall (c : cfg) (ops : list op) (x : st * list uev * list call) (p : peer) (k : N)
-         (s' : st) (ev : list uev) (calls : list call),
-    forallb prompt_op ops = true -> In x (fst (run c init ops)) ->
-    ps (fst (fst x)) p = Some (Open k) ->
-    step c (fst (fst x)) (CmdClose p) = Some (s', ev, calls) -> In (UClosed p) ev).
+  forall (c : cfg) (s : st) (p : peer) (k : N) (s' : st) (ev : list uev) (calls : list call),
+    reachable c s -> ps s p = Some (Open k) ->
+    step c s (CmdClose p) = Some (s', ev, calls) -> In (UClosed p) ev).
+Check (C11_delivered_close_kills_nothing :
+  forall (c : cfg) (s : st) (o : op) (s1 : st) (ev : list uev) (cl : list call) (s2 : st) (dr : list peer) (ks : list N),
+    reachable c s -> main_handler c s o = Some (s1, ev, cl) -> drain s1 ev = (s2, dr, ks) -> ks = []).
 Check (C11_no_stuck :
   forall (c : cfg) (ops : list op), snd (run c init ops) = true).
 Check (C11_no_stuck_feasible :
@@ -61,9 +65,16 @@ Check (C11_quiescent_nothing_owed :
 Check (C11_at_most_one_answer :
   forall (c : cfg) (s : st) (o : op) (s' : st) (ev : list uev) (cl : list call) (q : peer),
     step c s o = Some (s', ev, cl) -> (length (answers q ev) <= 1)%nat).
-Check (C11_open_answered_refuted :
-  exists (c : cfg) (ops : list op) (s : st) (owed : peer -> bool),
-    ledger c init (fun _ => false) ops = Some (s, owed) /\ owed 0 = true /\ obligation s 0 = false).
+Check (C11_no_dead_substream_id :
+  forall (c : cfg) (s : st), reachable c s ->
+    (forall p x, (ps s p = Some (OutInit x) \/ exists d i, ps s p = Some (Validating d (OInit x) i)) -> In (x, p) (spend s)) /\
+    (forall x q, In (x, q) (pend s) -> In (x, q) (spend s))).
+Check (C11_open_answered_before_fix_refuted :
+  exists (c : cfg) (pre : list op) (s s' : st),
+    exec c init pre = Some s /\ ledger_env c init pre = true /\ hopen s 0 = false /\
+    ps s 0 = Some (Closed (Some 0)) /\ pend_find 0 (pend s) = None /\ spend s = [] /\
+    on_open_old c s 0 = Some (s', [], []) /\ in_progress (ps s' 0) = true /\ obligation s' 0 = false /\
+    exists s2, on_open c s 0 = Some (s2, [], [COpen 0 1]) /\ obligation s2 0 = true).
 Check (C11_open_answered_class3_refuted :
   exists (c : cfg) (ops : list op) (s : st) (owed : peer -> bool),
     ledger c init (fun _ => false) ops = Some (s, owed) /\ owed 0 = true /\ in_progress (ps s 0) = false).
@@ -108,19 +119,58 @@ Check (C11_stale_timer_cancels_newer_attempt_refuted :
     timers s3 = [0]).
 Check (C11_lazy_no_stuck :
   forall (c : cfg) (cap : nat) (gs : list lop), snd (lrun c cap linit gs) = true).
+Check (C11_lazy_alternation :
+  forall (c : cfg) (cap : nat) (gs : list lop),
+    exists h, grammar (fun _ => false) (levents (fst (lrun c cap linit gs))) = Some h).
 Check (C11_event_channel_no_loss :
   forall (c : cfg) (cap : nat) (gs : list lop),
     ltaken_run c cap linit gs ++ lq (lfinal c cap linit gs) = lemitted_run c cap linit gs).
 Check (C11_event_channel_step :
   forall (c : cfg) (cap : nat) (l : lst) (g : lop) (l' : lst) (ev : list uev) (cl : list call),
     lstep c cap l g = Some (l', ev, cl) ->
-    ltaken l g ++ lq l' = lq l ++ lemitted c cap l g /\ (ltaken l g <> [] -> ev = ltaken l g)).
+    ltaken cap l g ++ lq l' = lq l ++ lemitted c cap l g /\
+    (snd (fst (poll_events cap (ls l) (lq l))) <> None \/ g <> LPoll -> ev = delivered (ls l) (ltaken cap l g))).
 Check (C11_poll_delivers_oldest :
-  forall (c : cfg) (cap : nat) (l : lst) (e : uev) (rest : list uev),
-    lq l = e :: rest -> exists l' cl, lstep c cap l LPoll = Some (l', [e], cl)).
+  forall (c : cfg) (cap : nat) (l : lst) (dd : list uev) (e : uev) (rest : list uev),
+    poll_events cap (ls l) (lq l) = (dd, Some e, rest) ->
+    exists l' cl, lstep c cap l LPoll = Some (l', delivered (ls l) [e], cl)).
 Check (C11_capacity_only_delays :
   forall (c : cfg) (cap1 cap2 : nat) (gs : list lop),
     never_blocked c cap1 linit gs = true -> never_blocked c cap2 linit gs = true ->
     map (fun x => (lcore (fst (fst x)), snd (fst x))) (fst (lrun c cap1 linit gs)) =
     map (fun x => (lcore (fst (fst x)), snd (fst x))) (fst (lrun c cap2 linit gs)) /\
     snd (lrun c cap1 linit gs) = snd (lrun c cap2 linit gs)).
+Check (C11_gate_is_newest_sink :
+  forall (c : cfg) (s : st) (p : peer),
+    reachable c s -> hopen s p = true -> hsink s p = lastt s p /\ lastt s p <> None).
+Check (C11_lazy_queue_lifecycle_only :
+  forall (c : cfg) (cap : nat) (gs : list lop) (x : lst * list uev * list call),
+    In x (fst (lrun c cap linit gs)) -> Forall not_notif (lq (fst (fst x)))).
+Check (C11_lazy_notification_in_its_period :
+  forall (c : cfg) (cap : nat) (l l' : lst) (ev : list uev) (cl : list call) (p : peer),
+    Forall not_notif (lq l) -> lstep c cap l LPoll = Some (l', ev, cl) -> In (UNotif p) ev ->
+    snd (fst (poll_events cap (ls l) (lq l))) = None /\
+    exists k, In (p, k) (lnf l) /\ hopen (ls l) p = true /\ hsink (ls l) p = Some k).
+Check (C11_hs_events_only_for_held_substreams :
+  forall (h : HSModel.hs) (ord : list HSModel.key) (h' : HSModel.hs) (k : HSModel.key),
+    (exists rd, HSModel.poll h ord = (h', HSModel.PNeg k rd)) \/ HSModel.poll h ord = (h', HSModel.PErr k) ->
+    HSModel.has k h = true).
+Check (C11_hs_negotiated_hands_out :
+  forall (h : HSModel.hs) (ord : list HSModel.key) (h' : HSModel.hs) (k : HSModel.key) (rd : bool),
+    HSModel.poll h ord = (h', HSModel.PNeg k rd) -> HSModel.has k h' = false).
+Check (C11_hs_error_keeps_substream :
+  forall (h : HSModel.hs) (ord : list HSModel.key) (h' : HSModel.hs) (k : HSModel.key),
+    HSModel.poll h ord = (h', HSModel.PErr k) -> HSModel.has k h' = true).
+Check (C11_hs_timeout_fails :
+  forall (e : HSModel.hent), HSModel.e_timed e = true -> HSModel.visit1 e = HSModel.VErr).
+Check (C11_hs_keys_unique :
+  forall (h : HSModel.hs) (o : HSModel.hop),
+    HSProofs.uniq (HSModel.ents h) -> HSProofs.uniq (HSModel.ents (fst (HSModel.hstep h o)))).
+Check (C11_hs_removed_is_silent :
+  forall (h : HSModel.hs) (ord : list HSModel.key) (h' : HSModel.hs) (k : HSModel.key),
+    HSModel.has k h = false -> (forall rd, ~ In (k, rd) (HSModel.ready h)) ->
+    (forall rd, HSModel.poll h ord <> (h', HSModel.PNeg k rd)) /\ HSModel.poll h ord <> (h', HSModel.PErr k)).
+Check (C11_hs_stale_ready_refuted :
+  map snd (HSModel.hrun HSModel.hs0 HSProofs.w_stale) =
+  [HSModel.PPending; HSModel.PPending; HSModel.PPending; HSModel.PPending; HSModel.PErr 1;
+   HSModel.PPending; HSModel.PPending; HSModel.PPending; HSModel.PNeg 0 true]).
